@@ -647,14 +647,18 @@ class C04(Check):
                 wq = reserialise(kind, q)
                 reser_pos = [i for i in range(n) if i not in chkset and (i >= len(wq) or wq[i] != c[i])] + ([-1] if len(wq) != len(c) else [])
                 reser = bool(reser_pos)
+                # does the accepted PDU still carry the check field it RECEIVED?  (D11 accepts a word because the received check value happens to fit the
+                # normalised fields; a parser that throws the received value away and generates a fresh one accepts for another reason)
+                reser_chk = any(i < len(wq) and wq[i] != c[i] for i in chkset)
             except Exception:
-                reser, reser_pos = True, [-2]
+                reser, reser_pos, reser_chk = True, [-2], False
             res["cov"].add(f"{kind}|{cls}|{hit}|accepted-{'equal' if same_fields else 'different'}-fields")
             fail("C04.corruption-accepted-equal-fields" if same_fields else "C04.silent-accept", f"{kind}:{cls}",
                  f"{kind}: wire {case['wire']} with bits {list(p)} inverted is accepted (indicator True) with {'equal' if same_fields else 'different'} field values"
                  f"{' [received check field all-zero]' if check_zero else ''}{' [accepted PDU re-serialises differently from the received bits]' if reser else ''}",
                  dict(sub0, ops=[list(p)], pclass=cls), {"kind": kind, "check_zero": check_zero, "reser_differs": reser, "reser_pos": reser_pos[:40],
-                                                         "fields": "equal" if same_fields else "different", "flipped": list(p)[:40]})
+                                                         "fields": "equal" if same_fields else "different", "flipped": list(p)[:40],
+                                                         "reser_check_differs": reser_chk})
         # the clean word again after this reception history (corrupted receptions, failing parses): what the library serialised must still
         # parse back with its indicator true and the same field values - a long-lived receiver sees exactly this sequence
         if "ops" not in case or case.get("hist"):
